@@ -13,13 +13,21 @@ Clause "cursor moves first child / next sibling are consistent with the single o
   shows its first element.  `laterSiblings` is the list of visible nodes that follow the current
   node inside its nearest visible ancestor: what follows it in its raw parent (`enumKids` of the
   remaining raw children), then what follows each hidden ancestor, stopping at a visible one.
+* `later_siblings_split`, `cursor_next_sibling_index_spec` — under the structural-index invariant
+  `IdxOK` (every entry's `si` = number of non-extra raw siblings before it; evaluated on every
+  stack the port builds) the children of the nearest visible ancestor are
+  `before ++ node :: laterSiblings`, i.e. goto_next_sibling = `siblings[idx + 1]?`.
+* `cursor_node_agree_first`, `cursor_node_agree_next` — cursor walk = node API: goto_first_child
+  reaches what `ts_node_child(node, 0)` returns, goto_next_sibling from child i of a visible parent
+  what `ts_node_child(parent, i + 1)` returns (ports on both sides).
+* `cursor_field_spec` — the port of `ts_tree_cursor_current_field_id` = `chainField (stackChain …)`,
+  the stack-side construction of the `fields` chain `flattenKids` records (innermost level with a
+  field wins; extras and the cursor's root have none).
 * supporting: `iterNext_some/none` (the forward iterator step in closed form), `firstGo_spec`,
   `scanSiblings_eq`, `enumKids_head`, `sibling_internal_spec`.
 
 Together with `child_spec` these give: a walk by goto_first_child / goto_next_sibling visits the
-children of a node in the order of `enumChildren`.  OPEN: the identification of `laterSiblings`
-with `FT.nextSibling` on the numbered tree (needs the structural-index invariant of the stack),
-goto_previous_sibling/last_child (mirror image, for the repaired iterator), goto_descendant,
+children of a node in the order of `enumChildren`.  OPEN: goto_previous_sibling/last_child (mirror image, for the repaired iterator), goto_descendant,
 parent_spec / next_sibling_spec / prev_sibling_spec for the position-based node.c searches
 (false on the unchanged code for zero-width nodes: would be `_partial`).
 -/
@@ -568,6 +576,248 @@ theorem cursor_next_sibling_spec (lang : Lang) (c : Cursor) (hok : StackOK lang 
       | false => exact absurd (hfc.2 hb) hne
     refine ⟨fun _ => ?_, fun hf => by simp at hf⟩
     rw [hfc.1 hok1, hhead]
+
+end TsVerif.C06
+
+namespace TsVerif.C06
+
+theorem enumKids_append (lang : Lang) (pid : Nat) : ∀ (a b : List Tree) (si : Nat),
+    enumKids lang pid (a ++ b) si = enumKids lang pid a si ++ enumKids lang pid b (siAfter a si)
+  | [], b, si => by simp [enumKids, siAfter]
+  | c :: a, b, si => by
+    simp only [List.cons_append, enumKids, siAfter]
+    rw [enumKids_append lang pid a b, List.append_assoc]
+
+/-- What entry `e` (child of entry `p`) contributes to the enumeration of `p`'s visible children:
+itself when visible or aliased, otherwise its own visible children. -/
+def contrib (lang : Lang) (e p : Entry) : List (Tree × Nat) :=
+  if e.t.data.visible || (if e.t.data.extra then 0 else lang.aliasAt p.t.data.productionId e.si) != 0
+  then [(e.t, (if e.t.data.extra then 0 else lang.aliasAt p.t.data.productionId e.si))] else enumChildren lang e.t
+
+theorem visEntry_eq (lang : Lang) (e p : Entry) :
+    visEntry lang e p = (e.t.data.visible || (if e.t.data.extra then 0 else lang.aliasAt p.t.data.productionId e.si) != 0) := by
+  unfold visEntry
+  by_cases hx : e.t.data.extra = true <;> simp [hx]
+
+/-- The structural-index invariant of a cursor stack: every entry records the number of non-extra
+raw siblings before it. -/
+def IdxOK : List Entry → Prop
+  | e :: p :: rest => e.si = siAfter (p.t.kids.take e.childIndex) 0 ∧ IdxOK (p :: rest)
+  | _ => True
+
+/-- One level: the enumeration of `p`'s children splits around the entry `e`. -/
+theorem enum_split_level (lang : Lang) (e p : Entry)
+    (hchild : p.t.kids[e.childIndex]? = some e.t) (hsi : e.si = siAfter (p.t.kids.take e.childIndex) 0) :
+    enumChildren lang p.t =
+      enumKids lang p.t.data.productionId (p.t.kids.take e.childIndex) 0 ++ contrib lang e p ++ laterInParent lang e p := by
+  cases hp : p.t with
+  | mk pd pkids =>
+  rw [hp] at hchild hsi
+  simp only [kids_mk, data_mk] at hchild hsi ⊢
+  unfold enumChildren
+  have hsplit : pkids = pkids.take e.childIndex ++ e.t :: pkids.drop (e.childIndex + 1) := by
+    rw [← drop_eq_cons _ _ _ hchild, List.take_append_drop]
+  conv => lhs; rw [hsplit]
+  rw [enumKids_append, ← hsi]
+  unfold laterInParent contrib
+  simp only [hp, kids_mk, data_mk]
+  conv => lhs; rw [enumKids]
+  simp only [List.append_assoc]
+
+/-- The enumeration of the children of the nearest visible ancestor (the bottom entry counts as
+visible: it is the cursor's root). -/
+def ancEnum (lang : Lang) : List Entry → List (Tree × Nat)
+  | [] => []
+  | [p] => enumChildren lang p.t
+  | p :: p' :: rest => if visEntry lang p p' then enumChildren lang p.t else ancEnum lang (p' :: rest)
+
+/-- `later_siblings_split`: for a well-linked stack with the structural-index invariant, the
+enumeration of the children of the nearest visible ancestor is
+`before ++ (what the current entry contributes) ++ laterSiblings`. -/
+theorem later_siblings_split (lang : Lang) : ∀ (rest : List Entry) (e p : Entry),
+    StackOK lang (e :: p :: rest) → IdxOK (e :: p :: rest) →
+    ∃ before, ancEnum lang (p :: rest) = before ++ contrib lang e p ++ laterSiblings lang true (e :: p :: rest)
+  | [], e, p, hok, hidx => by
+    unfold StackOK at hok
+    unfold IdxOK at hidx
+    refine ⟨enumKids lang p.t.data.productionId (p.t.kids.take e.childIndex) 0, ?_⟩
+    simp only [ancEnum, laterSiblings, Bool.not_true, Bool.false_and, Bool.false_eq_true, if_false, List.append_nil]
+    exact enum_split_level lang e p hok.2.2.1 hidx.1
+  | p' :: rest, e, p, hok, hidx => by
+    have hok' := hok
+    unfold StackOK at hok'
+    have hidx' := hidx
+    unfold IdxOK at hidx'
+    have hlevel := enum_split_level lang e p hok'.2.2.1 hidx'.1
+    obtain ⟨before', hb⟩ := later_siblings_split lang rest p p' hok'.2.2.2 hidx'.2
+    by_cases hv : visEntry lang p p' = true
+    · refine ⟨enumKids lang p.t.data.productionId (p.t.kids.take e.childIndex) 0, ?_⟩
+      simp only [ancEnum, hv, if_true, laterSiblings, Bool.not_true, Bool.false_and, Bool.false_eq_true, if_false,
+        Bool.not_false, Bool.true_and, List.append_nil]
+      exact hlevel
+    · have hv' : visEntry lang p p' = false := by simpa using hv
+      have hcp : contrib lang p p' = enumChildren lang p.t := by
+        unfold contrib
+        rw [← visEntry_eq, hv']
+        simp
+      refine ⟨before' ++ enumKids lang p.t.data.productionId (p.t.kids.take e.childIndex) 0, ?_⟩
+      have hl : laterSiblings lang true (e :: p :: p' :: rest) =
+          laterInParent lang e p ++ laterSiblings lang true (p :: p' :: rest) := by
+        simp [laterSiblings, hv']
+      rw [hl]
+      simp only [ancEnum, hv', Bool.false_eq_true, if_false]
+      rw [hb, hcp, hlevel]
+      simp only [List.append_assoc]
+
+/-- `cursor_next_sibling_index_spec` — "nextSibling n = (siblingsOf n)[idx n + 1]?": when the cursor
+shows a visible node, the children of its nearest visible ancestor are
+`before ++ node :: laterSiblings`, so `goto_next_sibling` moves to the element with index
+`before.length + 1` of the sibling list and fails exactly when there is none. -/
+theorem cursor_next_sibling_index_spec (lang : Lang) (c : Cursor) (e p : Entry) (rest : List Entry)
+    (hst : c.stack = e :: p :: rest) (hok : StackOK lang c.stack) (hidx : IdxOK c.stack)
+    (hvis : visEntry lang e p = true) :
+    ∃ before,
+      ancEnum lang (p :: rest) =
+        before ++ (e.t, (if e.t.data.extra then 0 else lang.aliasAt p.t.data.productionId e.si)) :: laterSiblings lang true c.stack ∧
+      ((gotoNextSibling lang c).1 = true →
+        topNode lang (gotoNextSibling lang c).2.stack = (ancEnum lang (p :: rest))[before.length + 1]?) ∧
+      ((gotoNextSibling lang c).1 = false → (ancEnum lang (p :: rest))[before.length + 1]? = none) := by
+  rw [hst] at hok hidx
+  obtain ⟨before, hb⟩ := later_siblings_split lang rest e p hok hidx
+  have hc : contrib lang e p = [(e.t, (if e.t.data.extra then 0 else lang.aliasAt p.t.data.productionId e.si))] := by
+    unfold contrib
+    rw [← visEntry_eq, hvis]
+    simp
+  rw [hc] at hb
+  have hspec := cursor_next_sibling_spec lang c (by rw [hst]; exact hok)
+  refine ⟨before, by rw [hb, hst]; simp, ?_, ?_⟩
+  · intro h
+    rw [hspec.1 h, hb, ← hst]
+    simp [List.getElem?_append_right, List.head?_eq_getElem?]
+  · intro h
+    rw [hb, ← hst, hspec.2 h]
+    simp [List.getElem?_append_right]
+
+end TsVerif.C06
+
+namespace TsVerif.C06
+
+/-- `cursor_node_agree_first`: `goto_first_child` of a cursor and `ts_node_child(node, 0)` reach the
+same (subtree, alias), for every summarized parser-shaped subtree. -/
+theorem cursor_node_agree_first (lang : Lang) (top : Entry) (rest : List Entry) (ps : Option Nat)
+    (hs : Summarized lang top.t) (hsh : shapeOK ps top.t = true) :
+    (if (gotoChild lang false (topSize (top :: rest)) (top :: rest)).1
+      then topNode lang (gotoChild lang false (topSize (top :: rest)) (top :: rest)).2 else none) =
+    (nodeChild lang true top.t top.pos 0).map (fun r => (r.t, r.alias)) := by
+  have hc := cursor_first_child_spec lang (topSize (top :: rest)) top rest ps hs hsh (by simp [topSize])
+  rw [child_spec lang top.t ps top.pos 0 hs hsh]
+  cases hb : (gotoChild lang false (topSize (top :: rest)) (top :: rest)).1 with
+  | true => simp only [if_true]; rw [hc.1 hb]; simp [List.head?_eq_getElem?]
+  | false => simp [hc.2 hb]
+
+/-- `cursor_node_agree_next`: when the cursor shows the child with index `before.length` of a
+VISIBLE parent entry (or of the cursor's root), `goto_next_sibling` reaches the same
+(subtree, alias) as `ts_node_child(parent, before.length + 1)`. -/
+theorem cursor_node_agree_next (lang : Lang) (c : Cursor) (e p : Entry) (rest : List Entry) (ps : Option Nat)
+    (hst : c.stack = e :: p :: rest) (hok : StackOK lang c.stack) (hidx : IdxOK c.stack)
+    (hvis : visEntry lang e p = true)
+    (hpv : match rest with | p' :: _ => visEntry lang p p' = true | [] => True)
+    (hsh : shapeOK ps p.t = true) :
+    ∃ i, (enumChildren lang p.t)[i]? = some (e.t, (if e.t.data.extra then 0 else lang.aliasAt p.t.data.productionId e.si)) ∧
+      (if (gotoNextSibling lang c).1 then topNode lang (gotoNextSibling lang c).2.stack else none) =
+        (nodeChild lang true p.t p.pos (i + 1)).map (fun r => (r.t, r.alias)) := by
+  obtain ⟨before, hb, h1, h2⟩ := cursor_next_sibling_index_spec lang c e p rest hst hok hidx hvis
+  have hanc : ancEnum lang (p :: rest) = enumChildren lang p.t := by
+    cases rest with
+    | nil => rfl
+    | cons p' r => simp only [ancEnum]; simp only at hpv; simp [hpv]
+  have hsp : Summarized lang p.t := by
+    rw [hst] at hok
+    unfold StackOK at hok
+    have := hok.2.2.2
+    unfold StackOK at this
+    exact this.1
+  refine ⟨before.length, ?_, ?_⟩
+  · rw [← hanc, hb]; simp
+  · rw [child_spec lang p.t ps p.pos (before.length + 1) hsp hsh, ← hanc]
+    cases hbn : (gotoNextSibling lang c).1 with
+    | true => simp only [if_true]; exact h1 hbn
+    | false => simp only [Bool.false_eq_true, if_false]; exact (h2 hbn).symm
+
+
+/-- The field chain of the cursor's node, built from the stack exactly as `flattenKids` builds the
+`fields` of a node of `flatten`: the node's own structural slot, then the slots of its hidden
+ancestors up to (excluding) the nearest visible one; an extra entry cuts the chain. -/
+def stackChain (lang : Lang) : List Entry → List (List Nat)
+  | e :: p :: rest =>
+    if e.t.data.extra then []
+    else directFields lang p.t.data.productionId e.si ::
+      (match rest with
+       | p' :: _ => if visEntry lang p p' then [] else stackChain lang (p :: rest)
+       | [] => [])
+  | _ => []
+
+theorem isEntryVisible_eq (lang : Lang) (e p : Entry) : isEntryVisible lang e (some p) = visEntry lang e p := by
+  unfold isEntryVisible visEntry
+  by_cases hv : e.t.data.visible = true <;> by_cases hx : e.t.data.extra = true <;> simp [hv, hx]
+
+theorem find_eq_head_filter {α : Type} (q : α → Bool) : ∀ l : List α, l.find? q = (l.filter q).head?
+  | [] => rfl
+  | x :: xs => by
+    by_cases h : q x = true
+    · rw [List.find?_cons_of_pos (h := h), List.filter_cons_of_pos h]; rfl
+    · rw [List.find?_cons_of_neg (h := h), List.filter_cons_of_neg h]; exact find_eq_head_filter q xs
+
+theorem currentFieldId_go_spec (lang : Lang) : ∀ (stack : List Entry) (isTop : Bool),
+    currentFieldId.go lang isTop stack =
+      match stack with
+      | e :: p :: _ => if !isTop && visEntry lang e p then 0 else (chainField (stackChain lang stack)).getD 0
+      | _ => 0
+  | [], _ => by simp [currentFieldId.go]
+  | [_], _ => by simp [currentFieldId.go]
+  | e :: p :: rest, isTop => by
+    unfold currentFieldId.go
+    rw [isEntryVisible_eq]
+    by_cases hstop : (!isTop && visEntry lang e p) = true
+    · simp [hstop]
+    · have hstop' : (!isTop && visEntry lang e p) = false := by simpa using hstop
+      simp only [hstop', Bool.false_eq_true, if_false]
+      by_cases hx : e.t.data.extra = true
+      · simp [hx, stackChain, chainField]
+      · have hx' : e.t.data.extra = false := by simpa using hx
+        simp only [hx', Bool.false_eq_true, if_false]
+        rw [find_eq_head_filter]
+        unfold stackChain
+        simp only [hx', Bool.false_eq_true, if_false]
+        rw [chainField_cons]
+        unfold directFields
+        cases hf : ((lang.fieldMap p.t.data.productionId).toList.filter fun m => !m.inherited && m.childIndex == e.si) with
+        | cons m ms => simp [firstSome]
+        | nil =>
+          simp only [List.head?_nil, List.map_nil, firstSome]
+          rw [currentFieldId_go_spec lang (p :: rest) false]
+          cases rest with
+          | nil => simp [chainField]
+          | cons p' r =>
+            simp only [Bool.not_false, Bool.true_and]
+            by_cases hv : visEntry lang p p' = true
+            · simp [hv, chainField]
+            · have hv' : visEntry lang p p' = false := by simpa using hv
+              simp [hv']
+
+/-- `cursor_field_spec`: the port of `ts_tree_cursor_current_field_id` returns the field that the
+field chain of the node shows (`chainField`, the function `FT.fieldOf`/`render` use on `flatten`):
+the first field of the innermost level that has one; none for extras and for the cursor's root. -/
+theorem cursor_field_spec (lang : Lang) (c : Cursor) :
+    currentFieldId lang c = (chainField (stackChain lang c.stack)).getD 0 := by
+  unfold currentFieldId
+  rw [currentFieldId_go_spec]
+  cases hs : c.stack with
+  | nil => simp [stackChain, chainField]
+  | cons e r =>
+    cases r with
+    | nil => simp [stackChain, chainField]
+    | cons p rest => simp
 
 end TsVerif.C06
 
